@@ -435,6 +435,6 @@ pub fn property() -> Property {
         rule: "cases are generated files (class x order x fixed/run-time spec, random layout) holding real string, note, compressed (payload of every length incl. shorter than the compression header) and plain sections, plus 0..4 section headers and 1..4 program headers with fabricated ranges drawn from boundary pairs (inside; zero-length at 0/mid/EOF/EOF+1; ending at EOF-1/EOF/EOF+1; far outside; offset+size overflowing; sharing a start or an end with another range; whole file; raw 64-bit values), p_memsz != p_filesz always, NOBITS and SHF_COMPRESSED flags on arbitrary ranges, and 4 headers that are not in the file at all. Oracle (ground truth = header values as written by the builder): for every &[u8]/&str handed out by section_data, segment_data, section_data_as_strtab (+get_raw at 10 offsets), section_data_as_notes / segment_data_as_notes (name, desc, build-id): pointer - input pointer and length equal the designated range (minus the compression header when SHF_COMPRESSED - also for a compressed string table's typed view -, empty for NOBITS, string/note sub-ranges from the reference walkers); section-name strings, symbol-name strings (symbol_table()) and the strings of symbol-version requirements/definitions (separate string tables for .gnu.version_r and .gnu.version_d) lie at the designated offsets of the string table their section links to; a range not inside the buffer gives Err, a range inside gives Ok. Non-trivial: at least one returned slice was pointer-checked and the file has a range touching/crossing EOF or a program header (p_memsz != p_filesz); distinct by file hash.",
         assumptions: &["empty slices are compared by length only (their pointer is unspecified)"],
         subs: vec![Sub::new("ranges", oracle, 1200, 1_500_000, 40_000_000)],
-        extras: vec![],
+        extras: vec![crate::fuzz::c03_choice],
     }
 }
